@@ -1,0 +1,111 @@
+//go:build verif
+
+package goja
+
+// The generator object's state machine (C09), at the level of the Go methods behind
+// Generator.prototype.next/throw/return: which state a call leaves the generator in, for every
+// outcome of the step - yield, completion, exception, or a panic passing through.
+
+// Assumed of unknown code (script, callbacks), for every generator: a generator that is running when
+// the code starts is still running when it ends - nothing but the activation that set the state leaves
+// it (guarantee side: validate() rejects every call on a running generator, which is the first thing
+// next/throw/return do).
+//@ scriptrely *generatorObject g old(g.state) == genStateExecuting ==> g.state == genStateExecuting
+// ... and the converse, which is what next/throw/return guarantee below (induction over the depth of
+// nested calls): no generator is left running by code that has ended, and a completed one stays so.
+//@ scriptrely *generatorObject g old(g.state) != genStateExecuting ==> g.state != genStateExecuting
+//@ scriptrely *generatorObject g old(g.state) == genStateCompleted ==> g.state == genStateCompleted
+
+
+// The marker discipline of the VM (see the C03 contracts), restated for the generator object's wrappers.
+//@ define ggMarkersKept = forall m int :: 0 <= m && m < old(len(g.gen.vm.tryStack)) && (old(g.gen.vm.tryStack[m].catchPos) == tryPanicMarker && old(g.gen.vm.tryStack[m].finallyRet) == -1) ==> m < len(g.gen.vm.tryStack) && (g.gen.vm.tryStack[m].catchPos == tryPanicMarker && g.gen.vm.tryStack[m].finallyRet == -1)
+//@ define ggNoNewMarkers = forall m int :: 0 <= m && m < len(g.gen.vm.tryStack) && (g.gen.vm.tryStack[m].catchPos == tryPanicMarker && g.gen.vm.tryStack[m].finallyRet == -1) ==> m < old(len(g.gen.vm.tryStack)) && (old(g.gen.vm.tryStack[m].catchPos) == tryPanicMarker && old(g.gen.vm.tryStack[m].finallyRet) == -1)
+//@ define ggFrame = script, @vmRegs, g.state, g.delegated, g.gen.tryStackLen, g.gen.iterStackLen, g.gen.refStackLen
+
+// A running generator rejects every call; nothing else does.
+//@ func (*generatorObject).validate
+//@   props C09
+//@   requires g != nil
+//@   ensures g.state != genStateExecuting [running-generator-is-rejected]
+//@   ensures_abrupt g.state == genStateExecuting [rejects-only-a-running-generator]
+//@   assigns nothing if g.state != genStateExecuting
+//@   assigns script
+
+// Settling a step: an exception completes the generator and is rethrown, a yield suspends it, a
+// return completes it. Whatever happens the generator is not left in the executing state.
+//@ func (*generatorObject).step
+//@   props C09
+//@   requires g != nil && g.gen.vm != nil
+//@   ensures g.state != genStateExecuting [settled]
+//@   ensures_abrupt ex != nil || resType == resultYield || resType == resultYieldDelegate || resType == resultYieldRes || resType == resultYieldDelegateRes || resType == resultNormal ==> g.state != genStateExecuting [settled-on-panic]
+//@   ensures ex == nil && resType == resultNormal ==> g.state == genStateCompleted [return-completes]
+//@   ensures @ggMarkersKept [markers-kept]
+//@   ensures @ggNoNewMarkers [no-marker-left-behind]
+//@   ensures_abrupt @ggMarkersKept [markers-kept]
+//@   ensures_abrupt @ggNoNewMarkers [no-marker-left-behind]
+//@   assigns @ggFrame
+
+//@ func (*generatorObject).delegate
+//@   props C09
+//@   requires g != nil && g.gen.vm != nil && g.state != genStateExecuting
+//@   ensures g.state != genStateExecuting [settled]
+//@   ensures_abrupt g.state != genStateExecuting [settled-on-panic]
+//@   ensures @ggMarkersKept [markers-kept]
+//@   ensures @ggNoNewMarkers [no-marker-left-behind]
+//@   ensures_abrupt @ggMarkersKept [markers-kept]
+//@   ensures_abrupt @ggNoNewMarkers [no-marker-left-behind]
+//@   assigns @ggFrame
+
+// While the delegated iterator's method runs, the generator IS running (yield* evaluates inside the
+// generator's execution context): a re-entrant call from inside that method must be rejected.
+//@ func (*generatorObject).tryCallDelegated
+//@   props C09
+//@   requires g != nil && g.gen.vm != nil
+//@   site try#1 vars g *generatorObject
+//@   site try#1 requires g.state == genStateExecuting [delegated-call-runs-in-the-executing-state]
+//@   ensures done ==> g.state == old(g.state) [state-restored-when-the-delegate-answered]
+//@   ensures !done ==> g.state == old(g.state) || g.state != genStateExecuting [settled-or-restored]
+//@   ensures @ggMarkersKept [markers-kept]
+//@   ensures @ggNoNewMarkers [no-marker-left-behind]
+//@   ensures_abrupt @ggMarkersKept [markers-kept]
+//@   ensures_abrupt @ggNoNewMarkers [no-marker-left-behind]
+//@   assigns @ggFrame
+
+//@ define neverLeftExecuting = old(g.state) != genStateExecuting ==> g.state != genStateExecuting
+//@ define completedStays = old(g.state) == genStateCompleted ==> g.state == genStateCompleted
+
+//@ func (*generatorObject).next
+//@   props C09
+//@   requires g != nil && g.gen.vm != nil
+//@   ensures @ggMarkersKept [markers-kept]
+//@   ensures @ggNoNewMarkers [no-marker-left-behind]
+//@   ensures_abrupt @ggMarkersKept [markers-kept]
+//@   ensures_abrupt @ggNoNewMarkers [no-marker-left-behind]
+//@   assigns @ggFrame
+//@   ensures @neverLeftExecuting [never-left-executing]
+//@   ensures_abrupt @neverLeftExecuting [never-left-executing-on-panic]
+//@   ensures @completedStays [completed-stays-completed]
+
+//@ func (*generatorObject).throw
+//@   props C09
+//@   requires g != nil && g.gen.vm != nil
+//@   ensures @ggMarkersKept [markers-kept]
+//@   ensures @ggNoNewMarkers [no-marker-left-behind]
+//@   ensures_abrupt @ggMarkersKept [markers-kept]
+//@   ensures_abrupt @ggNoNewMarkers [no-marker-left-behind]
+//@   assigns @ggFrame
+//@   ensures @neverLeftExecuting [never-left-executing]
+//@   ensures_abrupt @neverLeftExecuting [never-left-executing-on-panic]
+//@   ensures_abrupt old(g.state) == genStateSuspendedStart || old(g.state) == genStateCompleted ==> g.state == genStateCompleted && same(panicValue, interface{}(v)) [not-started-or-completed-rethrows-the-value]
+
+// The deferred completion: a panic passing through a generator that is running completes it and
+// continues with the same value; otherwise nothing happens.
+//@ func (*generatorObject).completeOnPanic
+//@   props C09
+//@   requires g != nil
+//@   ensures recovered == nil [never-swallows-a-panic]
+//@   ensures_abrupt same(panicValue, recovered) [rethrows-same-value]
+//@   ensures_abrupt g.state != genStateExecuting [not-left-executing]
+//@   ensures_abrupt old(g.state) != genStateExecuting ==> g.state == old(g.state) [other-states-untouched]
+//@   assigns nothing if recovered == nil
+//@   assigns g.state, g.delegated
